@@ -331,6 +331,14 @@ let handle (case : sx) : string =
                   | Some spans -> paren ("spans" :: List.map (fun sp ->
                       paren [ni sp.sp_start; ni sp.sp_end; sx_value (canon_value (VMap sp.sp_env))]) spans))) rxs)) texts in
            id ^ "\t" ^ paren ["ok"; paren outs])
+  | L (A id :: A "reader" :: bsz :: content :: [L ops]) ->
+      (* buffered reader over a file with the given content: list of (off len) reads *)
+      let f = by_of content in
+      let b = nat_of bsz in
+      let ops' = List.map (function L [o; l] -> (nat_of o, nat_of l) | _ -> raise (Parse_error "op")) ops in
+      (match rd_run b f (rd_new b f) ops' with
+       | None -> id ^ "\t(hang)"
+       | Some rs -> id ^ "\t" ^ paren ("ok" :: List.map atom_of_bytes rs))
   | L (A id :: A "check" :: A ctx :: [L stmts]) ->
       let c = if ctx = "predicate" then CtxPredicate else CtxTransform in
       (match check_ok c (pstmts_of stmts) with
